@@ -189,7 +189,17 @@ fn run_case(case: &Case, drv: &mut Driver, rep: &mut Report) -> Vec<(String, Str
     let fmt = case.fmt;
     let book = wb::LBook { sheets: vec![case.sheet.clone()] };
     let bytes = wb::write(&book, fmt, &mut Rng::new(case.seed));
-    let mut wbk = match wb::open(bytes, fmt) {
+    // xls also takes the option at construction (`XlsOptions::header_row`): one case in three opens that way,
+    // so that "changing the option affects only subsequent reads and can be changed back" is exercised from there
+    let opened = if fmt == Fmt::Xls && case.seed % 3 == 0 && !case.options.is_empty() {
+        let mut o = calamine::XlsOptions::default();
+        o.header_row = case.options[0];
+        rep.count("xls.opened-with-options");
+        calamine::Xls::new_with_options(std::io::Cursor::new(bytes), o).map(calamine::Sheets::Xls).map_err(|e| format!("{e:?}"))
+    } else {
+        wb::open(bytes, fmt)
+    };
+    let mut wbk = match opened {
         Ok(w) => w,
         Err(e) => {
             fails.push(("impl_vs_spec".into(), format!("{}:open", fmt.name()), format!("open failed: {e}"), String::new(), "opens".into()));
@@ -209,7 +219,12 @@ fn run_case(case: &Case, drv: &mut Driver, rep: &mut Report) -> Vec<(String, Str
     };
     // the default range (input of the eager model)
     let default_dump = match guarded(|| wbk.with_header_row(HeaderRow::FirstNonEmptyRow).worksheet_range(&name)) {
-        Ok(Ok(r)) => dump_range(&r, &table),
+        Ok(Ok(r)) => {
+            if let Err(why) = oracle(&case.sheet, &HeaderRow::FirstNonEmptyRow, &r) {
+                fails.push(("impl_vs_spec".into(), format!("{}:default", fmt.name()), dump_range(&r, &table), String::new(), why));
+            }
+            dump_range(&r, &table)
+        }
         other => {
             fails.push(("impl_vs_spec".into(), format!("{}:default-read", fmt.name()), format!("{:?}", other.map(|x| x.map(|_| ()))), String::new(), "Ok".into()));
             return fails;
